@@ -17,6 +17,7 @@ func init() {
 	rt.Register("H_C06_step", H_C06_step)
 	rt.Register("H_C06_pair", H_C06_pair)
 	rt.Register("H_C06_constructs", H_C06_constructs)
+	rt.Register("H_C06_capture", H_C06_capture)
 }
 
 // call-site and literal machinery that handles existing values: unpacking, expansion,
@@ -31,6 +32,7 @@ var c06Constructs = []string{
 	`o.digest([["k", 1]])`, `a.digest([9])`, `m.digest([[1, 2]])`,
 	`o2.{|x| \_}`, `{|| \_}(**o)`, `{|| \0}(*a)`, `a.{|x| [*x, *x]}`,
 	`rd.A + a`, `[*rd]`, `a[rd]`, `s[rd]`, `rd@{|x| x}`, `ad@{|x| x}`, `[*ad, *rd]`, `rd._iter.next`, `ad.sum`, `rd == r`,
+	`keep := a$([]){|p| p[0] + [p]}; [keep[0][1], keep[1][1], keep[2][1]]`, `fs := a$([]){|p| p[0] + [{|| p[1]}]}; fs@{|f| f()}`, `ks := a~$([]){|p| p[0] + [p]}; ks[0][1]`, `zs := a@{|x| [x]}; zs[0]`,
 	`o == o2`, `m == m2`, `a == aa`, `o.keys + o2.keys`, `r.A + a`, `s + s`, `s * 2`, `a * 2`,
 }
 
@@ -314,4 +316,35 @@ func H_C06_pair() {
 	rt.Note(fmt.Sprintf("r1 := a.%s(%s); %s.%s(%s)", n1, a1, recv2, n2, a2))
 	h.EvalNoPanic(fmt.Sprintf("Obj.callProp(%s, nm2, %s)", recv2, a2))
 	p.unchanged("a value derived earlier must not change when another value is derived from the same receiver")
+}
+
+// c06Captures: a value handed to a chain step (the element, the [acc, elem] pair, the
+// [key, value] pair) and kept by the step - stored in the result or captured by a closure -
+// must still hold what it held, after all later steps have run.  Each program reads the
+// kept values back at the end; the expected result is [x1, x2, x3] (payloads symbolic).
+var c06Captures = []string{
+	`a$([]){|p| p[0] + [p]}@{|q| q[1]}`,
+	`a$([]){|p| p[0] + [{|| p[1]}]}@{|f| f()}`,
+	`a~$([]){|p| p[0] + [p]}@{|q| q[1]}`,
+	`a~$([]){|p| p[0] + [{|| p[1]}]}@{|f| f()}`,
+	`g := {|p| p[0] + [p]}; a$([])^g@{|q| q[1]}`,
+	`a@{|x| [x]}@{|q| q[0]}`,
+	`a@{|x| {|| x}}@{|f| f()}`,
+	`a=@{|x| [x]}@{|q| q[0]}`,
+	`{k1: x1, k2: x2, k3: x3}@{|kv| kv}@{|q| q[1]}`,
+	`%{1: x1, 2: x2, 3: x3}@{|kv| kv}@{|q| q[1]}`,
+	`%{1: x1, 2: x2, 3: x3}$([]){|p| p[0] + [p]}@{|q| q[1][1]}`,
+	`it := a._iter; [[it.next], [it.next], [it.next]]@{|q| q[0]}`,
+	`a$([]){|acc, x| acc + [[acc.len, x]]}@{|q| q[1]}`,
+}
+
+func H_C06_capture() {
+	h := NewH()
+	p := c06World(h, true)
+	src := c06Captures[rt.Param(0)]
+	rt.Note(src)
+	res := h.EvalNoPanic(src)
+	x := func(n string) int64 { return h.EvalNoPanic(n).(*object.PanInt).Value }
+	rt.Assert(arrOfInts(res, x("x1"), x("x2"), x("x3")), "a value kept by a chain step still holds what it held when the step received it")
+	p.unchanged("no chain may change an existing value")
 }
